@@ -97,7 +97,7 @@ NoTold == [t |-> NONE, g |-> 0]
 
 \* parameters of the model itself: exact, no tolerance
 P == [gw |-> GW, gi |-> GI, ri |-> RI, pt |-> PT, st |-> ST, mint |-> MinT,
-      slack |-> 0, rslack |-> 0, dupmin |-> MaxDelay, dupmax |-> RI, late |-> 0]
+      slack |-> 0, rslack |-> 0, dupmin |-> [a \in Alerts |-> MaxDelay], dupmax |-> RI, repmax |-> RI, late |-> 0]
 
 -----------------------------------------------------------------------------
 (* the wiring of app.setup *)
@@ -112,7 +112,7 @@ BkSame == UNCHANGED bk
 BkSend(i, a, t, p) ==
   /\ sent' = Append(sent, [i |-> i, a |-> a, t |-> t, g |-> gen[i], owe |-> owe[i][a].lvl,
                            rep |-> /\ told[i][a].t # NONE /\ told[i][a].g < gen[i]
-                                   /\ t - told[i][a].t <= p.dupmax])
+                                   /\ t - told[i][a].t <= p.repmax])
   /\ told' = [told EXCEPT ![i][a] = [t |-> t, g |-> gen[i]]]
   /\ UNCHANGED <<gen, owe, healthy, posted, expired>>
 
@@ -393,12 +393,14 @@ AtLeastOnceP(p) ==
   \A i \in Inst, a \in Alerts :
     (since[i][a] # NONE /\ now - since[i][a] > Bound(p, pos[i])) => \E k \in 1 .. Len(sent) : sent[k].a = a
 
-\* C08: healthy cluster => the same group state is not delivered twice within repeat_interval
-\* (deliveries closer than the gossip latency dupmin are the race the peer timeout exists for)
+\* C08: healthy cluster => the same group state is not delivered twice within repeat_interval.
+\* Deliveries closer than dupmin[a] are the race the peer timeout exists for (the first delivery
+\* may still be in flight, its log entry on the way); no verdict when that is not below the peer timeout
 DupPairs(p) == {pr \in (1 .. Len(sent)) \X (1 .. Len(sent)) :
                   /\ pr[1] < pr[2] /\ sent[pr[1]].a = sent[pr[2]].a
-                  /\ sent[pr[2]].t - sent[pr[1]].t > p.dupmin /\ sent[pr[2]].t - sent[pr[1]].t <= p.dupmax}
-NoDuplicateP(p) == (healthy /\ Cardinality(Inst) > 1 /\ p.dupmin < p.pt) => DupPairs(p) = {}
+                  /\ p.dupmin[sent[pr[2]].a] < p.pt
+                  /\ sent[pr[2]].t - sent[pr[1]].t > p.dupmin[sent[pr[2]].a] /\ sent[pr[2]].t - sent[pr[1]].t <= p.dupmax}
+NoDuplicateP(p) == (healthy /\ Cardinality(Inst) > 1) => DupPairs(p) = {}
 
 \* C11: a silence acknowledged before a restart whose snapshot had to hold it keeps muting
 SilenceSurvivesP ==
